@@ -44,7 +44,9 @@ Invariants (all C17):
   equal the arith_uint256 reference, for every timespan;
 - liveness-one-getblocktxn-round-trip, liveness-blocks-accepted,
   liveness-light-client-served.
-Unreached by construction: 48-bit short-id collisions (probe ``short-id-collision``).
+``collisions`` -- the short-id hash as a seam: SipHash cut to 2..9 bits for the run, so that announcements whose own
+  ids repeat, pool collisions and strangers answering a block transaction's id all happen (see ``_collisions``).
+48-bit short-id collisions themselves stay unreached (probe ``short-id-collision`` of the relay part).
 Corrupted bytes reaching a parser may only raise library exceptions: stated as
 ``ctx.check("C19", "only-library-exceptions", ...)`` for W4's lens; the size /
 weight / vsize identities of every mined block and transaction as
@@ -81,7 +83,7 @@ def run(ctx: Ctx) -> None:
     if part == "mix":
         part = ctx.ch.pick(["relay", "pow"], "part")
     ctx.log("start", part)
-    {"relay": _relay, "pow": _pow}[part](ctx)
+    {"relay": _relay, "pow": _pow, "collisions": _collisions}[part](ctx)
 
 
 def _guarded(ctx: Ctx, site: str, fn: Callable[[], Any]) -> tuple[bool, Any]:
@@ -771,6 +773,103 @@ def _relay(ctx: Ctx) -> None:  # noqa: C901, PLR0915
     _pow_queries(ctx, stamps + [clock.read(sim.now)], 2)
 
 
+def _collisions(ctx: Ctx) -> None:  # noqa: C901, PLR0915
+    """Short ids that collide: the width of the id is a knob the simulator turns.
+
+    A 48-bit collision is 2^24 transactions away by birthday and 2^48 for a given block transaction, so no run meets
+    one. The hash is the seam instead: for this run the name ``compact_blocks.siphash`` answers the real SipHash-2-4
+    cut to 2..9 bits (the miner's reference ids are cut the same way), so that with a pool of a dozen strangers every
+    case of the statement's "all pools (supersets, shuffles, collisions)" happens: two positions of one announcement
+    under one id, a stranger under the id of a transaction the pool lacks, a stranger beside the transaction it collides
+    with, a witness twin beside its original. What must hold is what the statement says and the module documents:
+    ``reconstruct`` refuses an announcement whose own ids repeat; otherwise a position is filled iff exactly one
+    distinct pool transaction answers its id (with that transaction), and a block is accepted after ``fill`` only if
+    it is the original block, always if every filled position holds the right transaction.
+    """
+    from btclib.block.proof_of_work import REGTEST_POW_LIMIT_BITS  # noqa: PLC0415
+    from btclib.p2p import CmpctBlock, PrefilledTransaction, compact_blocks, reconstruct  # noqa: PLC0415
+
+    from btcsim.seams.state import patch_attr  # noqa: PLC0415
+
+    ch = ctx.ch
+    bulk = gb.Bulk(ch)
+    real = getattr(compact_blocks, "siphash", None)
+    if real is None:
+        ctx.probe("seam-unavailable:compact_blocks.siphash")
+        return
+    width = 2 + ch.draw(8, "sid.width")
+    mask = (1 << width) - 1
+    m = _assemble(ctx, bulk, 2016 * (1 + ch.draw(400, "height.period")) - 1 - ch.draw(3, "height.offset"), bulk.take(32), GENESIS_TIME + ch.draw(10**6, "stamp"))
+    txs = m.block.transactions
+    undo = patch_attr(compact_blocks, "siphash", lambda k0, k1, data: real(k0, k1, data) & mask)
+    try:
+        for _ in range(1 + ch.draw(3, "n.announcements")):
+            prefilled = [0] + [i for i in range(1, len(txs)) if ch.chance(1, 6, "cmpct.prefill?")]
+            nonce = ch.bits(64, "cmpct.nonce64")
+            key = hashlib.sha256(m.raw[:80] + nonce.to_bytes(8, "little")).digest()
+            k0, k1 = int.from_bytes(key[:8], "little"), int.from_bytes(key[8:16], "little")
+
+            def sid_of(w: bytes, k0: int = k0, k1: int = k1) -> int:
+                return gcs.siphash24(k0, k1, w) & mask
+
+            sid = [sid_of(w) for w in m.wtxids]
+            slots = [i for i in range(len(txs)) if i not in prefilled]
+            with ctx.must_succeed(P, "cmpctblock-builds", "cmpctblock/narrow-ids"):
+                cb = CmpctBlock(m.block.header, nonce, [sid[i] for i in slots], [PrefilledTransaction(i, txs[i]) for i in prefilled])
+                got = [cb.short_id(t.hash) for t in txs]
+            if any(x > mask for x in got):
+                ctx.probe("seam-unavailable:compact_blocks.siphash")  # the tree reaches its hash another way
+                return
+            ctx.check(P, "short-id-equals-reference", got == sid, lambda: f"{width}-bit ids differ from the cut SipHash-2-4 of the wtxids", site="cmpctblock/narrow-ids")
+            with ctx.must_succeed(P, "cmpctblock-round-trips", "cmpctblock/narrow-ids"):
+                cb = CmpctBlock.parse(cb.serialize())  # a colliding announcement is one a peer legitimately sends
+
+            # the pool: some of the block, strangers (enough for the width), witness twins, equal copies, shuffled
+            keep = ch.pick([1, 2, 0], "pool.keep")
+            pool = [g.tx for g in m.gens if keep == 2 or (keep == 1 and ch.draw(2, "pool.has"))]
+            pool += [gb.gen_tx(ch, bulk, []).tx for _ in range(ch.draw(min(2 * mask, 14) + 1, "pool.strangers"))]
+            pool += [gb.malleate_witness(g, bulk) for g in m.gens if ch.chance(1, 6, "pool.twin?")]
+            pool += [type(t).parse(t.serialize(include_witness=True, check_validity=False), check_validity=False) for t in pool if ch.chance(1, 6, "pool.copy?")]
+            pool = ch.shuffled(pool, "pool.order")
+            pool_w = [rm.dsha(t.serialize(include_witness=True, check_validity=False)) for t in pool]
+
+            # the model: per slot, the distinct pool wtxids under its id
+            answers = {i: sorted({w for w in pool_w if sid_of(w) == sid[i]}) for i in slots}
+            own_collide = len({sid[i] for i in slots}) != len(slots)
+            want_missing = [i for i in slots if len(answers[i]) != 1]
+            wrong = [i for i in slots if len(answers[i]) == 1 and answers[i][0] != m.wtxids[i]]
+            if own_collide:
+                ctx.probe("announcement-ids-repeat")
+            if any(len(a) > 1 for a in answers.values()):
+                ctx.probe("pool-collision")
+            if wrong:
+                ctx.probe("stranger-fills-a-position")
+            ctx.fault("short-id-narrowed", width)
+
+            ok, part = _guarded(ctx, "reconstruct", lambda cb=cb, pool=pool: reconstruct(cb, pool))
+            if own_collide:
+                ctx.check(P, "repeated-ids-refused", not ok, lambda: f"an announcement whose {width}-bit ids repeat was reconstructed", site="reconstruct/narrow-ids")
+                ctx.log("own-collision-refused", width, actor="node")
+                continue
+            ctx.check(P, "reconstruct-succeeds", ok, lambda: f"refused: {part}", site="reconstruct/narrow-ids")
+            ctx.check(P, "reconstruct-finds-pool-transactions", part.missing_indexes == want_missing, lambda: f"missing {part.missing_indexes}; exactly one distinct pool transaction answers the ids of all but {want_missing}", site="reconstruct/narrow-ids")
+            held = [None if t is None else rm.dsha(t.serialize(include_witness=True, check_validity=False)) for t in part.transactions]
+            want_held = [None if i in want_missing else (m.wtxids[i] if i in prefilled else answers[i][0]) for i in range(len(txs))]
+            ctx.check(P, "reconstruct-places-the-answering-transaction", held == want_held, lambda: f"positions {[i for i in range(len(txs)) if held[i] != want_held[i]]} hold another transaction than the one answering their id", site="reconstruct/narrow-ids")
+            ok, blk = _guarded(ctx, "fill", lambda part=part, want_missing=want_missing: part.fill([txs[i] for i in want_missing], check_validity=False))
+            ctx.check(P, "honest-fill-accepted", ok, lambda: f"fill refused the transactions it asked for: {blk}", site="fill/narrow-ids")
+            ok, why = _guarded(ctx, "block.assert_valid", lambda blk=blk: blk.assert_valid(REGTEST_POW_LIMIT_BITS))
+            same = blk.serialize(check_validity=False) == m.raw
+            ctx.check(P, "filled-block-equals-original", not ok or same, lambda: f"a block with a stranger at {wrong} was accepted", site="fill/narrow-ids")
+            ctx.check(P, "accepted-block-commits", not ok or _ref_commits(blk) == "", lambda: f"accepted although the reference says: {_ref_commits(blk)}", site="fill/narrow-ids")
+            ctx.check(P, "honest-fill-accepted", ok or bool(wrong), lambda: f"every position holds the right transaction and the block is refused: {why}", site="fill/narrow-ids")
+            ctx.check(P, "surviving-collision-refused", ok or not same, lambda: "the original block was refused", site="fill/narrow-ids")
+            ctx.log("collisions", width, len(pool), want_missing, wrong, int(ok), actor="node")
+            ctx.state(f"narrow:w{width}:m{min(len(want_missing), 4)}:x{min(len(wrong), 3)}:ok{int(ok)}")
+    finally:
+        undo()
+
+
 def _inner_node_reads_as_tx(txids: list[bytes], i: int) -> bool:
     """Whether some 64-byte inner node on leaf i's path deserializes as a transaction: merkle_proof
     documents that it refuses such a branch (about 2^-24 per node: one input, no output)."""
@@ -924,6 +1023,7 @@ def _plans(tier: str) -> list[Any]:
         Plan("chain", {"part": "relay", "faults": False}, share=2.0, chunk=10, label="chain/relay"),
         Plan("chain", {"part": "relay", "faults": True}, share=3.0, chunk=10, label="chain/relay-faults"),
         Plan("chain", {"part": "pow"}, share=1.0, chunk=40, label="chain/pow"),
+        Plan("chain", {"part": "collisions"}, share=1.0, chunk=20, label="chain/short-id-collisions"),
     ]
 
 
@@ -942,12 +1042,14 @@ CHECKS = {
             "copies, relayed as compact blocks to 1-2 nodes with drawn pools under a drawn fault schedule (loss, duplication, "
             "delay, byte corruption, mutated block, wrong blocktxn), filtered and proved to a light client, every step judged "
             "against the reference merkle / SipHash+Golomb-Rice / arith_uint256 models; (pow) 4-12 compact values around the "
-            "exponent and sign boundaries with timespans taken from two jumping clocks. distinct = distinct (actor, event, "
+            "exponent and sign boundaries with timespans taken from two jumping clocks; (collisions) one mined block announced 1-3 times under "
+            "short ids narrowed to 2..9 bits to pools of block transactions, strangers, twins and copies, reconstruct / fill held to a "
+            "per-slot model (filled iff exactly one distinct pool wtxid answers the id). distinct = distinct (actor, event, "
             "fault) sequence; non-trivial = at least one fault, tamper or clock jump fired."
         ),
         "assumptions": [
             "blocks <= 41 transactions, <= 3 blocks, <= 2 nodes per run; pools <= 2x block",
-            "SHA-256 / SipHash collisions do not occur in budget: 48-bit short-id collisions are reported as an unreached probe, not claimed",
+            "SHA-256 / SipHash collisions do not occur in budget: 48-bit short-id collisions are an unreached probe of the relay part; the collisions plan produces them by cutting the hash behind the name compact_blocks.siphash to 2..9 bits (library and reference cut alike), which decides the collision handling of reconstruct / fill, not the hash",
             "the 2^32 compact values are sampled around exponent/sign boundaries, not enumerated",
             "an accepted block whose header was altered in flight into another valid regtest header is judged against the reference commitments only",
             "the merkle-branch builder is the reference model's (btclib verifies branches, it does not build them)",
